@@ -284,3 +284,4 @@ mod t {
 }
 
 pub mod tcpbed;
+pub mod tcpworld;
